@@ -31,6 +31,10 @@ for d in sorted(glob.glob(os.path.join(HERE, "seeded", "C*-*"))):
     re_ = m.get("recheck", {})
     first = "caught" if v.get("caught") else "MISSED"
     now = "caught" if (re_.get("caught") if re_ else v.get("caught")) else "MISSED"
+    oth = [c for c, r in (m.get("recheck_other") or {}).items() if r.get("caught")]
+    if now == "MISSED" and oth:
+        now = "caught by " + "/".join(oth)
+        keys = (m["recheck_other"][oth[0]].get("keys") or [])
     keys = (re_.get("keys") if re_ else v.get("check_keys")) or []
     summ = str(m.get("summary", "")).replace("|", "\\|").replace("\n", " ")[:260]
     need = str(m.get("needs_to_manifest", "")).replace("|", "\\|").replace("\n", " ")[:220]
